@@ -73,7 +73,13 @@ def alphabet():
         ("spin1", "preset", "spin1_boot_options", 1024),
         ("clk", "kwargs", {"cpu_clk": 123, "led1": 0x55}, 1028),
         ("zero", "kwargs", {"soft_wdog": 0, "led0": 0}, 2048),
-        ("dict", "dict", {"mem_clk": 99, "hw_ver": 7}, 1028),
+        # through the dictionary an sv field may share its name with a
+        # parameter of boot() itself (boot_delay); values with the top bit of
+        # their field set
+        ("dict", "dict", {"mem_clk": 99, "hw_ver": 7, "boot_delay": 20,
+                          "led1": 0x80000055, "p2p_dims": 0x8003,
+                          "clk_div": 0x81}, 1028),
+        ("mc_dict", "mc_dict", {"boot_delay": 33, "led0": 0xC0000001}, 1028),
         ("dict+kw", "dict+kw", {"link_en": 0x15, "p2p_sql": 9}, 1020),
         ("mc", "mc", {"hw_ver": 2, "num_buf": 3}, 1028),
         ("bundled", "kwargs", {"hw_ver": 4}, "bundled"),
@@ -156,6 +162,12 @@ def do_call(entry, host, cap, net, mods):
             given = dict(items[:1])
             res = bootmod.boot(host, scamp_binary=img, sv_overrides=given,
                                **dict(items[1:]))
+        elif how == "mc_dict":
+            mc = mcm.MachineController(host)
+            given = dict(opts)
+            mc.boot(only_if_needed=False, check_booted=True,
+                    scamp_binary=img, sv_overrides=given)
+            res = mc.structs
         elif how in ("mc", "mc_wh"):
             mc = mcm.MachineController(host)
             if how == "mc":
@@ -171,7 +183,8 @@ def do_call(entry, host, cap, net, mods):
             res = mc.structs
     except Exception as e:
         exc = e
-    if given is not None and how == "dict" and given != dict(opts):
+    if given is not None and how in ("dict", "mc_dict") and \
+            given != dict(opts):
         exc = exc or AssertionError("caller's sv_overrides dict was "
                                     "modified: %r" % given)
     if given is not None and how == "dict+kw" and given != dict(
